@@ -52,6 +52,33 @@ pub fn base_script(name: &str) -> (Instr, Vec<String>) {
             ]),
             vec!["A".into(), "M".into(), "B".into()],
         ),
+        // M produces the same result (same content id) several times: bags that differ only in multiplicities
+        "SM5" => (
+            seqs(vec![
+                call(peer("A"), "t", "f1", vec![], "x"),
+                call(peer("M"), "t", "f2", vec![var("x")], "a"),
+                call(peer("M"), "t", "f2", vec![var("x")], "b"),
+                call(peer("M"), "t", "f3", vec![var("x")], "c"),
+                call(peer("M"), "t", "f3", vec![var("x")], "d"),
+                call(peer("B"), "t", "f4", vec![var("a"), var("c")], "z"),
+            ]),
+            vec!["A".into(), "M".into(), "B".into()],
+        ),
+        // honest A makes the same call (peer, service, function) twice with different arguments, for every kind of
+        // result (stream, scalar, failed): results that differ only in the arguments they were produced for
+        "SM6" => (
+            seqs(vec![
+                call(peer("A"), "t", "f", vec![lit_n(1)], "$s"),
+                call(peer("A"), "t", "f", vec![lit_n(2)], "$s"),
+                call(peer("A"), "t", "g", vec![lit_n(1)], "x"),
+                call(peer("A"), "t", "g", vec![lit_n(2)], "y"),
+                xor(call(peer("A"), "e", "h", vec![lit_n(1)], ""), Instr::Null),
+                xor(call(peer("A"), "e", "h", vec![lit_n(2)], ""), Instr::Null),
+                call(peer("M"), "t", "m", vec![var("x")], "z"),
+                call(peer("B"), "t", "fin", vec![var("z"), var("y")], ""),
+            ]),
+            vec!["A".into(), "M".into(), "B".into()],
+        ),
         // stream values and a canon by an honest peer, relayed by M
         _ => (
             seqs(vec![
